@@ -170,7 +170,7 @@ func runC11Cell(t *testing.T, l lat, contents []c11Content, rep *Report) (cases 
 	if l.Enc != "off" {
 		keys = [][]byte{latKey(l.KeyLen)}
 	}
-	paths := []string{"ping", "ack", "nack", "indirect", "gossip"}
+	paths := []string{"ping", "ack", "nack", "indirect", "gossip", "gossip-multi"}
 	for _, path := range paths {
 		for _, ct := range contents {
 			cs := c11Case{l, path, ct}
@@ -186,6 +186,15 @@ func runC11Cell(t *testing.T, l lat, contents []c11Content, rep *Report) (cases 
 					c.RetransmitMult = 3
 				})
 				s, r := p.s, p.r
+				if path == "gossip-multi" {
+					// three more members of mixed protocol generations: a gossip round has several recipients,
+					// some with and some without the checksum header in front of their copy
+					for i, pm := range []uint8{4, 5, 3} {
+						s.M.VAliveNode(&ml.VAlive{Incarnation: 1, Node: fmt.Sprintf("10.0.0.%d", 230+i), Addr: ip4(byte(230 + i)), Port: 7946, Vsn: []uint8{1, pm, 2, 0, 0, 0}}, nil, false)
+					}
+					advance(time.Microsecond)
+					p.drainQueues()
+				}
 				// stock the queue
 				type mb struct {
 					name string
@@ -228,7 +237,7 @@ func runC11Cell(t *testing.T, l lat, contents []c11Content, rep *Report) (cases 
 					must(s.M.VEncodeAndSendMsg(rAddr, r.Name, ml.VNackRespMsg, &ml.VNackResp{SeqNo: 424242}))
 				case "indirect":
 					must(s.M.VEncodeAndSendMsg(rAddr, r.Name, ml.VIndirectPingMsg, &ml.VIndirectPingReq{SeqNo: 9, Target: ip4(250), Port: 7946, Node: "nobody", Nack: false, SourceAddr: ip4(1), SourcePort: 7946, SourceNode: s.Name}))
-				case "gossip":
+				case "gossip", "gossip-multi":
 					orig := s.T.OnSend
 					s.T.OnSend = func(pk sentPkt) {
 						p.Tap = append(p.Tap, tapRec{From: s.Name, To: pk.To, Buf: pk.Buf})
@@ -286,7 +295,7 @@ func runC11Cell(t *testing.T, l lat, contents []c11Content, rep *Report) (cases 
 						continue
 					}
 					for li, lf := range leaves {
-						if li == 0 && path != "gossip" {
+						if li == 0 && !strings.HasPrefix(path, "gossip") {
 							continue // the primary message
 						}
 						if !origMsgs[string(lf)] {
@@ -330,7 +339,7 @@ func runC11Cell(t *testing.T, l lat, contents []c11Content, rep *Report) (cases 
 }
 
 func pathClass(p string) string {
-	if p == "gossip" {
+	if strings.HasPrefix(p, "gossip") {
 		return "gossip"
 	}
 	return "piggyback"
@@ -393,7 +402,7 @@ func TestC11(t *testing.T) {
 	}
 	cells := c11Cells(thorough())
 	contents := c11Contents(thorough())
-	rep.Bounds = map[string]any{"cells": len(cells), "contents": len(contents), "paths": []string{"piggyback on ping", "on ack", "on nack", "on indirect ping", "gossip round"}}
+	rep.Bounds = map[string]any{"cells": len(cells), "contents": len(contents), "paths": []string{"piggyback on ping", "on ack", "on nack", "on indirect ping", "gossip round", "gossip round with four recipients of mixed protocol generations"}}
 	rep.Rule = "full product of UDPBufferSize x label{none,1 B,255 B} x encryption{off,v1,v1 without outgoing verification,v0} x compression x peer checksum support x send path x queue content (membership broadcasts 0..300 with min/mid/max metadata; user broadcasts 0..700 of size 1,2,40,exactly-the-offered-limit,limit-1,mixed); non-trivial = at least one queued broadcast was packed"
 	rep.Assumptions = []string{"the receiver is configured compatibly; what the queue/delegate handed out is read from the hook's queue dump and the harness delegate"}
 	for i, l := range cells {
